@@ -299,7 +299,17 @@ func (m *fullMon) c08PodCreate(call *APICall, pod *corev1.Pod) {
 				stillThere = true
 			}
 		}
-		if stillThere || (jt != nil && jt.everInStatus[pp.name]) {
+		// "recorded" is judged on the Job version the controller read (a stale cache cannot know
+		// about a record it has not seen yet).
+		recordedInRead := false
+		if rjx := m.t.readJob(call, cur.Namespace, cur.Name); rjx != nil && rjx.UID == cur.UID {
+			for _, r := range rjx.Status.Tasks {
+				if r.Name == pp.name {
+					recordedInRead = true
+				}
+			}
+		}
+		if stillThere || recordedInRead {
 			m.v("C09/duplicate-task", "second Pod created for Job %s index %s retry %d (first: %s, still exists: %v)", cur.Name, hash, retry, pp.name, stillThere)
 			return
 		}
@@ -429,7 +439,14 @@ func (m *fullMon) truthByIndex(juid string) map[string]*indexTruth {
 		if tr == nil {
 			continue
 		}
+		jt := m.t.jobsByUID[juid]
+		killedUnseen := tr.Finished != nil && tr.Outcome == "succeed" && tr.Gone != nil &&
+			(strings.Contains(tr.GoneBy, "/job/") || strings.HasPrefix(tr.GoneBy, "anon:")) && jt != nil && !jt.recordedSucceeded[pc.name]
 		switch {
+		case killedUnseen:
+			// the controller deleted the task (e.g. pending timeout judged on a stale cache) before it
+			// ever saw it succeed: from its point of view this attempt was killed.
+			it.unsuccessful++
 		case tr.Finished != nil && tr.Outcome == "succeed":
 			it.succeeded = true
 		case tr.Finished != nil || tr.Gone != nil:
@@ -512,7 +529,13 @@ func (m *fullMon) c10Finish(call *APICall, oj, nj *execution.Job) {
 			if fin.Result == execution.JobResultAdmissionError {
 				continue
 			}
-			m.v("C10/finished-with-live-task", "%s reported finished (%s) while Pod %s still exists and is not finished (phase %s)", fmtJob(nj), fin.Result, p.Name, p.Status.Phase)
+			rec := "not recorded in status.tasks"
+			for _, r := range nj.Status.Tasks {
+				if r.Name == p.Name {
+					rec = "recorded in status.tasks"
+				}
+			}
+			m.v("C10/finished-with-live-task", "%s reported finished (%s) while Pod %s still exists and is not finished (phase %s; %s)", fmtJob(nj), fin.Result, p.Name, p.Status.Phase, rec)
 			return
 		}
 	}
@@ -557,7 +580,16 @@ func (m *fullMon) c11Pair(call *APICall, verb string, oj, nj *execution.Job) {
 			return
 		}
 	}
-	userTouched := nj.Spec.KillTimestamp != nil || nj.DeletionTimestamp != nil || hasAdmissionError(nj)
+	// a recorded result may change only in reaction to a user edit (kill timestamp set or
+	// changed, deletion requested) that happened after that result was recorded.
+	userTouched := hasAdmissionError(nj) || nj.DeletionTimestamp != nil
+	if jt := m.t.jobsByUID[string(oj.UID)]; jt != nil {
+		killChangedNow := (oj.Spec.KillTimestamp == nil) != (nj.Spec.KillTimestamp == nil) ||
+			(oj.Spec.KillTimestamp != nil && nj.Spec.KillTimestamp != nil && !oj.Spec.KillTimestamp.Equal(nj.Spec.KillTimestamp))
+		if jt.userEditSeq > jt.resultSeq || killChangedNow || (oj.DeletionTimestamp == nil && nj.DeletionTimestamp != nil) {
+			userTouched = true
+		}
+	}
 	if of := oj.Status.Condition.Finished; of != nil {
 		nf := nj.Status.Condition.Finished
 		if nf == nil {
@@ -595,6 +627,24 @@ func (m *fullMon) c11Pair(call *APICall, verb string, oj, nj *execution.Job) {
 	ctrl := ctrlOfCall(call)
 	if verb != "updateStatus" || (ctrl != "job" && ctrl != "jobqueue") {
 		return
+	}
+	if ctrl == "job" {
+		oldNames := map[string]bool{}
+		for _, r := range oj.Status.Tasks {
+			oldNames[r.Name] = true
+		}
+		for _, r := range nj.Status.Tasks {
+			if oldNames[r.Name] {
+				continue
+			}
+			if po := m.w.API.Peek(ResPods, nj.Namespace, r.Name); po != nil {
+				if ref := metav1.GetControllerOf(accessor(po)); ref == nil || ref.UID != nj.UID {
+					m.v("C09/wrong-adoption", "%s: task %s was added to status.tasks but the Pod of that name is not controlled by this Job (controller: %v)", fmtJob(nj), r.Name, ref)
+					return
+				}
+				m.stat("mon.c09.adoptions_or_records")
+			}
+		}
 	}
 	// C09(4): never record a task as lost/finished while its Pod exists and is not terminal.
 	if ctrl == "job" {
